@@ -126,6 +126,14 @@ def c07_cases(rng, nbatches, batch, silent):
                 kind = rng.choice(["ok", "ok", "late", "dup"])
                 scripts[tok(name)] = {"kind": kind, "drops": 0, "ttl": 0, "delay_ms": rng.choice([50, 300])}
                 queries.append(q(ids, len(queries) + 1, name, proto="tcp", listener="dual4", upkind=kind, drops=0, wait_ms=6000, adv=1232, pipe=pipe, chop=chop))
+        # a TCP client that keeps its connection open after its answer, and others arriving meanwhile on the same listener
+        name = [ids.uniq(), "holder", "example"]
+        scripts[tok(name)] = {"kind": "ok", "ttl": 0}
+        queries.append(q(ids, len(queries) + 1, name, proto="tcp", listener="v4", upkind="ok", drops=0, wait_ms=4000, hold_ms=3500))
+        for j in range(3):
+            name = [ids.uniq(), "meanwhile", "example"]
+            scripts[tok(name)] = {"kind": "ok", "ttl": 0}
+            queries.append(q(ids, len(queries) + 1, name, proto="tcp", listener="v4", upkind="ok", drops=0, wait_ms=2500, sleep_before_ms=(600 if j == 0 else 0)))
         # a held TCP reply is released by the next query on the connection: close every batch with a plain TCP query
         name = [ids.uniq(), "flush", "example"]
         queries.append(q(ids, len(queries) + 1, name, proto="tcp", wave=1))
@@ -247,13 +255,22 @@ OPS = ["dns-recursion", "http", "http-metrics", "http-leases"]
 def c08_cases(rng, n):
     cases = []
     ids = Ids(rng)
-    for ci in range(n):
+    # rule lists that separate the address families at their seams: the IPv6 loopback and the IPv4-compatible range ::/96 are
+    # IPv6 (only ::ffff:a.b.c.d is an IPv4 client), an IPv4 /0 is not an IPv6 /0
+    P = lambda sub, perms: {"any": False, "subnets": sub, "unix": -1, "perms": perms}
+    directed = [[P([["v6", v6o("::1"), 128]], ["dns-recursion"])],
+                [P([["v4", v4o("0.0.0.0"), 0]], []), P([["v6", v6o("::"), 0]], ["dns-recursion"])],
+                [P([["v4", v4o("0.0.0.0"), 0]], ["dns-recursion"])],
+                [P([["v4", v4o("127.0.20.0"), 24]], ["dns-recursion"]), P([["v6", v6o("::"), 96]], [])]]
+    for ci in range(n + len(directed)):
         rules = []
         for _ in range(rng.choice([0, 1, 2, 2, 3, 4])):
             r = {"any": rng.random() < 0.15, "subnets": [], "unix": rng.choice([-1, -1, -1, 0, 1]), "perms": sorted(rng.sample(OPS, rng.randint(0, 4)))}
             if not r["any"]:
                 r["subnets"] = [rng.choice(ACL_PREFIXES) for _ in range(rng.choice([0, 1, 1, 2]))]
             rules.append(r)
+        if ci >= n:
+            rules = directed[ci - n]
         queries = []
         k = 0
         shared = [ids.uniq(), "shared", "example"]       # asked by everybody: a cached answer must not leak to refused clients
@@ -342,6 +359,19 @@ def check(pid, tier):
             r2 = tlc_mc(run, "MC_DnsTcpStream", "MC_DnsTcpStream_legacy.cfg", workers=2, timeout=120, coverage=False, tag="legacytcp", expect_violation=True)
             legacy_refuted = (not r2["ok"]) and r2["violated"] is not None
         cases = GEN[pid](run.rng, run.thorough)
+        if pid == "C07" and run.thorough:
+            # after the upstream hung up: more than two minutes of quiet (longer than the idle timers of the upstream
+            # connection), then queries that need upstream TCP again
+            ids = Ids(run.rng)
+            scripts, queries = {}, []
+            name = [ids.uniq(), "hangup", "example"]
+            scripts[tok(name)] = {"kind": "tc", "tcp_kind": "close", "ttl": 0}
+            queries.append(q(ids, 1, name, proto="tcp", upkind="close", wait_ms=8000))
+            for k in (2, 3):
+                name = [ids.uniq(), "afterquiet", "example"]
+                scripts[tok(name)] = {"kind": "ok", "ttl": 0}
+                queries.append(q(ids, k, name, proto="tcp", upkind="ok", wave=k - 1, wait_ms=6000, sleep_before_ms=(125000 if k == 2 else 0)))
+            cases.append({"routes": [{"suffixes": [""], "kind": "forward", "up": 5}], "acls": None, "scripts": scripts, "queries": queries, "settle_ms": 300, "meta": {"kind": "c07-quiet"}})
         if pid in ("C07", "C03"):
             # last: it may leave the TCP channel to that upstream dead for the rest of the process
             # (C03: a reply that reaches the wrong query is another question's answer under one's own id)
@@ -415,7 +445,8 @@ def c06_cases(rng, n):
             # the minimum sits in any of the three sections
             ttls = [rng.choice([m + 1, m + 5, 3600, 2 ** 31]) for _ in range(3)]
             ttls[rng.randrange(3)] = m
-            scripts[tok(name)] = {"kind": "ok", "ttls": ttls, "rcode": 0, "reply_seed": rng.randrange(10 ** 6), "reply_nrec": rng.choice([3, 4, 6])}
+            # (the response code must not matter for how long a reply lives; REFUSED is left out, relayed REFUSED is rate limited)
+            scripts[tok(name)] = {"kind": "ok", "ttls": ttls, "rcode": rng.choice([0, 0, 0, 2, 3]), "reply_seed": rng.randrange(10 ** 6), "reply_nrec": rng.choice([3, 4, 6])}
             names.append((name, m))
         queries = []
         def ask(wave, sleep_first=0, **kw):
